@@ -13,8 +13,11 @@ PROP = {
                   "theorems proved by structural induction for ALL query trees, clause lists, minimums, segments and delete sets: the scorer built denotes exactly "
                   "`matches` (C03_boolean_sound, C03_collect_sound), Weight::count incl. the doc_freq shortcut agrees (C03_count_agrees), scoring on/off is "
                   "irrelevant, any segmentation / merge / permutation of the documents gives the same answer and deleted documents never appear. "
+                  "Phrase matching (transliteration of phrase_scorer.rs incl. the carried-slop scan and the cost order of the terms): two-term phrases with any slop, "
+                  "scoring on or off, are proved to match exactly the documented meaning (C03_phrase, two-pointer completeness on sorted position lists). "
+                  "Order-preserving encodings i64/f64(non-NaN)/bool/date -> u64 (HIGHEST_BIT regenerated): a<b <-> enc a < enc b and range over encoded = range over values (C03_range_encoding). "
                   "Known findings (stated as classes with refuted witnesses): F31 single-clause boolean ignores the minimum in scorer(); F32 phrase with >= 3 terms and slop. "
-                  "Partial: docset iteration (advance/seek of union/intersection) is C13; block-max WAND pruning is C06; the automata are oracles.",
+                  "Partial: phrases with >= 3 terms are proved only through the witness/classifier (slop 0 with >= 3 terms is tied, not proved); docset iteration (advance/seek of union/intersection) is C13; block-max WAND pruning is C06; the automata are oracles.",
     "level_note": "Trusted: Coq kernel + vm_compute; pin.py; the harness (corpus/query generators, mapping of DocAddress to unique ids through a fast field); "
                   "leaf scorers are modelled by their posting lists (the theorem is parametric in any leaf scorer meeting the contract); tokenisation is C19 "
                   "(whitespace tokenizer over a generated vocabulary). No axioms (Print Assumptions: closed under the global context).",
